@@ -182,8 +182,8 @@ class C16(FloatSpec):
         if c['kind'] == 'tone':
             f = c['k'] * c['fs'] / n
             L.append(f"csd {c['k']}")          # the tone's own bin (oracle target)
-            if w is None:
-                L += [f"toneconv {f2b(c['fs'])} {f2b(f)}", f"tonepower {f2b(c['fs'])} {f2b(f)}"]
+            # single-frequency estimator, through the window in force (toneConv / toneConvW of the model)
+            L += [f"toneconv {f2b(c['fs'])} {f2b(f)}", f"tonepower {f2b(c['fs'])} {f2b(f)}"]
         if w is None and n <= 256:
             L.append(f'phase {self.phase_bins(c, s)}')
         if n % 2 == 0 and n <= 512:
@@ -228,10 +228,9 @@ class C16(FloatSpec):
         if c['kind'] == 'tone':
             f = c['k'] * fs / n
             R.append(cvals([z[c['k']]], SPEC_TOL))
-            if w is None:
-                R += [cvals([util.tone_conv(s, fs, f, detrend=None)], SPEC_TOL * max(1.0, n / 64)),
-                      num(util.tone_power_conv(s, fs, f, detrend=None), SPEC_TOL * max(1.0, n / 64),
-                          SPEC_TOL * c['A'] * max(1.0, n / 64))]
+            R += [cvals([util.tone_conv(s, fs, f, window=w, detrend=None)], SPEC_TOL * max(1.0, n / 64)),
+                  num(util.tone_power_conv(s, fs, f, window=w, detrend=None), SPEC_TOL * max(1.0, n / 64),
+                      SPEC_TOL * c['A'] * max(1.0, n / 64))]
         if w is None and n <= 256:
             pb = self.phase_bins(c, s)
             idx = [int(v) for v in pb.split(',')] if pb != '-' else []
